@@ -166,6 +166,26 @@ def evaluate(case):
                     f"object returns {np.frombuffer(_fresh_answer(cfg, op)).tolist()}",
                 )
                 return res
+        # second closing probe: the caller scribbles on the last array it received, then every query is repeated
+        if last is not None and not res.fails:
+            try:
+                last[...] = np.nan
+            except Exception:  # noqa - a read-only or scalar return cannot be scribbled on
+                pass
+            else:
+                for op in seen:
+                    try:
+                        got = np.array(c.a(op[1], op[2]), dtype=float)
+                    except Exception as e:  # noqa
+                        res.fail(sigbase + "/raises", f"cfg={cfg} history={hist} then mutation then {op}: {type(e).__name__}: {e}")
+                        return res
+                    if got.tobytes() != _fresh_answer(cfg, op):
+                        res.fail(
+                            f"{sigbase}/after-caller-mutation",
+                            f"cfg={cfg}: after history {hist}, the caller overwriting the last returned array, the query {op} "
+                            f"returns {got.tolist()} but a fresh object returns {np.frombuffer(_fresh_answer(cfg, op)).tolist()}",
+                        )
+                        return res
     res.info = {"state": state, "max_cache_entries": ncache, "hits": served_from_cache}
     res.nontrivial = served_from_cache > 0 or (case["op"][0] == "mut" and len(hist) > 1)
     res.outcome = f"{'mut' if case['op'][0] == 'mut' else 'query'}/cachehit={last_was_hit}/entries={min(ncache, 6)}"
@@ -184,6 +204,10 @@ def run(ctx):
         # expanded-method objects: full alphabet; depth 2 (quick) / 3 (thorough)
         alpha = alphabet_for(cfg, exact)
         hist.bfs(ctx, alpha, evaluate, 3 if thorough else 2, extra_case={"cfg": cfg})
+        # deep exploration on a tiny alphabet (repeat a query, mutate, repeat again needs >= 4 steps): 3 queries + mutation
+        tiny = [["q", cfg["ref"][0] ** 2, cfg["ref"][1]], ["q", 3.0, None], ["q", 1.1 * WALLS[1], None], ["mut"]]
+        deep = (4 if exact else 5) + (1 if thorough else 0)
+        hist.bfs(ctx, tiny, evaluate, deep, init_key="<deep>", extra_case={"cfg": cfg})
         sizes.append(len(alpha))
         nconf += 1
     ctx.rule = (
@@ -191,7 +215,7 @@ def run(ctx):
         "POLE/MSBAR, reference inside a patch / on a matching scale / with non-default or default nf, matching ratios "
         "2, 0.5, 1); alphabet = query (scale, nf_to) with scale in {reference, 0.9/1/1.1 x each matching scale, 3.0 and 3.3 "
         "GeV^2 around m_tau^2} x nf_to in {None,3,4,5,6} (61 letters; exact-method objects: 5 scales x "
-        "{None,4,5} = 16 letters) + 'overwrite the previously returned array with NaN'; BFS to depth 2 (quick) / "
+        "{None,4,5} = 16 letters) + 'overwrite the previously returned array with NaN'; BFS to depth 2 (quick) / [plus a second BFS on a 4-letter alphabet (reference point, 3.0, 1.1 x bottom wall, mutation) to depth 5 (exact objects 4), thorough +1] "
         "depth 3 (thorough), every explored history closed by a probe repeating its queries; states deduplicated on (memo keys, "
         "memo values, a_ref, last op); non-trivial = a query answered entirely from the memo, or a caller mutation "
         "after a query"
